@@ -39,8 +39,8 @@ def check_accessor_purity(ck: Checker, prog: Program, cls: Class, rule: str, flo
     eng = engine(prog)
     n = 0
     for name, m in sorted(cls.methods.items()):
-        if name in NON_ACCESSORS or m.qualname in getattr(prog, "absorbed", set()):
-            continue        # (a new helper of a mutator is analysed where it is called)
+        if name in NON_ACCESSORS or m.qualname in getattr(prog, "absorbed", set()) or m.kind in ("setter", "deleter"):
+            continue        # (a new helper of a mutator is analysed where it is called; the write half of a property is a mutator)
         n += 1
         s = eng.summary(m)
         effs = [e for e in s.effects if e.origin[0] in ("P", "G")]
@@ -50,7 +50,7 @@ def check_accessor_purity(ck: Checker, prog: Program, cls: Class, rule: str, flo
             ck.violation(rule, func, text,
                          f"statistic accessor {m.qualname} is not read-only: {describe_effect(es[0])} "
                          f"(its result would depend on call history)", loc=es[0].chain[0].loc, path=chain_text(es[0]))
-        extra = [d for d in m.decorators if d not in ("property", "staticmethod", "classmethod")]
+        extra = [d for d in m.decorators if d not in ("property", "staticmethod", "classmethod") and not d.endswith(".getter")]
         if extra:
             ck.violation(rule, m.qualname, f"decorator {extra[0]}", f"`@{extra[0]}` may cache the statistic across mask changes", loc=m.loc())
     ck.floor(rule, n, floor, f"statistic accessors of {cls.name}")
@@ -836,3 +836,69 @@ def check_alias_discipline(ck: Checker, prog: Program, rule: str, modules=("stat
                                  f"for the accepted alias(es) {aliases} this decision differs from the one taken by the helpers that do resolve it "
                                  f"(the lognormal statistic is then computed with a linear-space term)", loc=f.loc(c))
     ck.floor(rule, n, floor, "comparisons of a distribution name with a canonical literal")
+
+
+MASK_ATTRS = ("valid_window_boolean_mask", "valid_peak_boolean_mask")
+
+
+def check_mask_properties(ck: Checker, prog: Program, rule: str, classes=("HvsrTraditional", "HvsrAzimuthal", "HvsrDiffuseField")):
+    """The accept masks are what was last stored in them.  When a mask is a property, the pair (setter, getter) must hand back the
+    stored value: the setter stores its argument - as given or through a conversion of the argument alone (np.array(x, dtype=bool),
+    np.asarray(x), x.copy(), list(x)) - and the getter returns that storage.  A setter that combines the argument with other state
+    of the object changes the decisions of whoever assigns the mask."""
+    n = 0
+    for cname in classes:
+        cls = prog.classes.get(cname)
+        if cls is None:
+            continue
+        for attr in MASK_ATTRS:
+            st = cls.methods.get(f"{attr}.setter")
+            gt = cls.methods.get(attr)
+            if st is None:
+                if gt is not None and gt.kind == "property" and cname != "HvsrAzimuthal" and any(
+                        isinstance(x, ast.Attribute) and x.attr == attr and isinstance(x.ctx, ast.Store) for m in cls.methods.values() for x in ast.walk(m.node)):
+                    raise AnalysisError(f"{cname}.{attr} is a read-only property but is assigned in the class")
+                continue
+            n += 1
+            body = [b for b in st.node.body if not (isinstance(b, ast.Expr) and isinstance(b.value, ast.Constant))]
+            par = st.params[1] if len(st.params) > 1 else None
+            stores = [b for b in body if isinstance(b, ast.Assign) and len(b.targets) == 1 and isinstance(b.targets[0], ast.Attribute)
+                      and isinstance(b.targets[0].value, ast.Name) and b.targets[0].value.id == st.params[0]]
+            if par is None or len(stores) != 1 or any(isinstance(b, (ast.For, ast.While, ast.Try, ast.With)) for b in body):
+                raise AnalysisError(f"{st.qualname}: setter not recognised")
+            slot = stores[0].targets[0].attr
+            v = stores[0].value
+            # local conversions of the argument before the store
+            conv = {par}
+            for b in body:
+                if isinstance(b, ast.Assign) and len(b.targets) == 1 and isinstance(b.targets[0], ast.Name) and _converts_only(b.value, conv):
+                    conv.add(b.targets[0].id)
+            if _converts_only(v, conv):
+                g_ok = gt is not None and any(isinstance(r.value, ast.Attribute) and r.value.attr == slot and isinstance(r.value.value, ast.Name)
+                                              and r.value.value.id == gt.params[0] for r in returns_of(gt)) and len(returns_of(gt)) == 1
+                if g_ok:
+                    ck.ok(rule, st.qualname, f"{attr}: the setter stores its argument, the getter returns it")
+                else:
+                    ck.violation(rule, gt.qualname if gt else st.qualname, f"{attr} getter", f"`{attr}` does not read back what its setter stored in `{slot}`",
+                                 loc=(gt or st).loc())
+            else:
+                names = sorted({x.attr for x in ast.walk(v) if isinstance(x, ast.Attribute) and isinstance(x.value, ast.Name) and x.value.id == st.params[0]})
+                ck.violation(rule, st.qualname, f"{attr} setter",
+                             f"assigning `{attr}` does not store the assigned mask: the setter stores `{ast.unparse(v)[:90]}`"
+                             + (f" (combined with {names})" if names else "") + "; the accept/reject decisions of the caller are altered on the way in",
+                             loc=st.loc(stores[0]))
+    return n
+
+
+def _converts_only(e: ast.AST, names) -> bool:
+    """`e` is one of `names` or a type / container conversion of it alone."""
+    if isinstance(e, ast.Name):
+        return e.id in names
+    if isinstance(e, ast.Call):
+        nm = e.func.attr if isinstance(e.func, ast.Attribute) else (e.func.id if isinstance(e.func, ast.Name) else "")
+        if nm in ("array", "asarray", "asanyarray", "ascontiguousarray", "list", "tuple", "copy", "deepcopy", "bool_", "atleast_1d") and e.args \
+                and _converts_only(e.args[0], names) and all(k.arg in ("dtype", "copy") for k in e.keywords) and len(e.args) <= 2:
+            return True
+        if nm in ("copy", "astype") and isinstance(e.func, ast.Attribute) and _converts_only(e.func.value, names):
+            return nm == "copy" or (e.args and ast.unparse(e.args[0]) in ("bool", "np.bool_"))
+    return False
